@@ -38,7 +38,7 @@ CHECKS["C02"] = {
     "level": "proof",
     "lean_targets": ["Yae.Props.C02", "Yae.Props.C11"],
     "streams": [
-        EVAL(4000, 60000, kinds=["run"], projections=["class"], model_is_oracle=True,
+        EVAL(4000, 60000, kinds=["run", "pipeline"], projections=["class"], model_is_oracle=True,
              oracles=["internal-fault", "compile-internal-fault", "check-internal-fault", "process-crash"]),
         VM(1500, 20000, kinds=["vmrun", "verify"], projections=["class", "verify"], oracles=["compile-internal-fault", "process-crash"]),
     ],
@@ -63,7 +63,7 @@ CHECKS["C04"] = {
     "level": "proof",
     "lean_targets": ["Yae.Props.C04"],
     "streams": [
-        EVAL(5000, 80000, kinds=["run"], projections=["value", "class"], model_is_oracle=True),
+        EVAL(5000, 80000, kinds=["run", "pipeline"], projections=["value", "class"], model_is_oracle=True),
         VM(1500, 20000, kinds=["vmrun"], projections=["value", "class"], model_is_oracle=True),
         {"name": "num", "quick_n": 20000, "thorough_n": 300000, "model_is_oracle": True},
         {"name": "valrel", "quick_n": 3000, "thorough_n": 40000},
@@ -77,7 +77,7 @@ CHECKS["C05"] = {
     "level": "proof",
     "lean_targets": ["Yae.Props.C05", "Yae.Props.C05b", "Yae.Props.C17"],
     "streams": [
-        EVAL(5000, 80000, kinds=["check"], projections=["accept", "type", "annot"], model_is_oracle=True, oracles=["check-internal-fault", "mono-key-field-order", "poly-first-match-bot"]),
+        EVAL(5000, 80000, kinds=["check", "pipeline"], projections=["accept", "type", "annot"], model_is_oracle=True, oracles=["check-internal-fault", "mono-key-field-order", "poly-first-match-bot"]),
         {"name": "types", "quick_n": 8000, "thorough_n": 100000, "kinds": ["infer"], "oracles": ["match-*"]},
     ],
     "explanation": "A declarative typing relation Typed (Spec/Typing.lean) states the rules; proved: check accepts only typed programs with exactly the relation's type (C05.sound), accepts every typed program for every value of the type-variable counter (complete, counter_irrelevant, accepts_iff_typed, never_fuel), the relation is functional (unique), the annotated tree is the input plus attachments (erase); the checker's first-match rule vs the natural rule is characterised (overload_rules_coincide) with the kernel-checked D22 witness of their difference. Tie: check requests of the eval stream (accept/reject, inferred type, annotated tree) on type-directed programs and their type-breaking mutants with random overload sets.",
@@ -89,7 +89,7 @@ CHECKS["C06"] = {
     "level": "proof",
     "lean_targets": ["Yae.Props.C06", "Yae.Props.C03"],
     "streams": [
-        EVAL(5000, 80000, kinds=["run"], projections=["callnames"], oracles=["backend-divergence-calls"]),
+        EVAL(5000, 80000, kinds=["run", "pipeline"], projections=["callnames"], oracles=["backend-divergence-calls"]),
         VM(1500, 20000, kinds=["vmrun"], projections=["callnames"]),
     ],
     "explanation": "Unfolding theorems about the reference evaluator: if/&&/|| evaluate the condition once and only the selected operand (if_lazy, and_lazy, or_lazy, if_true/false), lazy host functions force exactly the thunks they choose (lazy_host), strict calls, list/map/object literals and subscripts evaluate operands once in source order and then emit exactly one call event (operands_in_order, strict_order_*, list/map/obj/subscript_order, host_invocation_event), the guard if(isset(m,k), m[k], d) never fails (guard_safe), evaluation is a function of its inputs (determined); the VM produces the same log (C03.vm_same_events). Tie: call-trace projection of the eval and vm streams with tracing, failing and lazy host functions in operand positions on all four back ends.",
@@ -159,14 +159,15 @@ CHECKS["C11"] = {
 CHECKS["C12"] = {
     "gen_ties": ["Builtins", "Vm", "Parser", "Conv", "Lexer"],
     "level": "other",
-    "lean_targets": ["Yae.Props.C12"],
+    "lean_targets": ["Yae.Props.C12", "Yae.Props.C12b"],
     "streams": [
         {"name": "api", "quick_n": 1500, "thorough_n": 20000, "oracles": ["api-panic", "api-slow", "api-superpoly*", "process-crash"], "timeout": 3000},
         {"name": "history", "quick_n": 300, "thorough_n": 3000, "oracles_only": True, "oracles": ["history-panic", "process-crash"]},
         {"name": "conv", "quick_n": 2000, "thorough_n": 20000, "oracles_only": True, "oracles": ["conv-panic"]},
         {"name": "debug", "quick_n": 800, "thorough_n": 8000, "oracles_only": True, "oracles": ["debug-panic", "process-crash"]},
+        EVAL(2500, 30000, kinds=["pipeline"], oracles=["api-panic", "process-crash"]),
     ],
-    "explanation": "Partial by nature. Proved over the model: every stage is a total function returning a value or an error and its fuel never runs out — lexer (C12.lex_no_fuel, lex_steps: at most one round per input character, lex_fuel_mono, lex_rule_attempts), parser (parse_no_fuel_partial, parseWith_no_fuel: 4*tokens+1 suffices), unifier (C17.unify_fuel_sufficient), checker (C05.never_fuel), evaluator (C02.progress: depth suffices), VM (C11.verify_sound, compiled_runs_safely: at most the code size). Not expressible in a model: wall-clock budgets, goroutine stack exhaustion, process death. The api stream is the failing-input search for those: random bytes/runes, token-level mutations of valid programs, bracket nests to depth 2000, operator chains, 14 kinds of host values through Eval / Compile+Callable / Debug with a per-input time budget, and growth families timed at increasing depth. Containment (third session): the inventory of panic guards of the API layer (which functions of facade.go, conv, ext/sql.go install a deferred recover, and through which helper) is regenerated from the source on every run (Gen.panicGuards) and tied (C12.guards_tie); over a hand-modelled call structure of Eval / Debug / Compile / Callable, every internal stage runs under one of those guards or is one of three stages that are total functions in the model (C12.contained_partial, helpers_recover). parse_fuel_witness: the one table for which the parser does not terminate (a prefix operator whose kind is the end-of-file marker), kernel-evaluated.",
+    "explanation": "Partial by nature. Proved over the model: every stage is a total function returning a value or an error and its fuel never runs out — lexer (C12.lex_no_fuel, lex_steps: at most one round per input character, lex_fuel_mono, lex_rule_attempts), parser (parse_no_fuel_partial, parseWith_no_fuel: 4*tokens+1 suffices), unifier (C17.unify_fuel_sufficient), checker (C05.never_fuel), evaluator (C02.progress: depth suffices), VM (C11.verify_sound, compiled_runs_safely: at most the code size). Not expressible in a model: wall-clock budgets, goroutine stack exhaustion, process death. The api stream is the failing-input search for those: random bytes/runes, token-level mutations of valid programs, bracket nests to depth 2000, operator chains, 14 kinds of host values through Eval / Compile+Callable / Debug with a per-input time budget, and growth families timed at increasing depth. Containment (third session): the inventory of panic guards of the API layer (which functions of facade.go, conv, ext/sql.go install a deferred recover, and through which helper) is regenerated from the source on every run (Gen.panicGuards) and tied (C12.guards_tie); over a hand-modelled call structure of Eval / Debug / Compile / Callable, every internal stage runs under one of those guards or is one of three stages that are total functions in the model (C12.contained_partial, helpers_recover). parse_fuel_witness: the one table for which the parser does not terminate (a prefix operator whose kind is the end-of-file marker), kernel-evaluated. The composed pipeline (Model/Facade: lex, parse, desugar, check, environment check, evaluate - tied to Compile + Callable FROM THE SOURCE TEXT by the pipeline cases of the eval stream): C12.compile_total - for every well-formed operator table and signature environment and EVERY source text, compilation ends in a tree, the syntax error or a type error, never in an outcome that stands for a run-time fault or an endless loop; run_total - an accepted run-time environment with well-formed values gives a value of the inferred type or a documented failure, and a refused one evaluates nothing. Work bounds (cost-instrumented copies of the parser and the desugarer, proved equal to the model after erasing the counter): parse_work_linear - at most 2n+1 parser calls on n tokens, on success and on failure, at every fuel; parse_nodes - the tree has at most n nodes; desugar_work_linear; compile_work_partial - the chain lexer rounds / rule attempts / #tokens <= #runes / parser calls / tree nodes in terms of the source length.",
     "assumptions": ["testing, not proof, for promptness and panic containment of the Go facade"],
 }
 
@@ -176,7 +177,7 @@ CHECKS["C13"] = {
     "lean_targets": ["Yae.Props.C13", "Yae.Props.C06"],
     "streams": [
         {"name": "history", "quick_n": 800, "thorough_n": 10000, "oracles": ["history-*", "process-crash"]},
-        EVAL(3000, 40000, kinds=["run"], projections=["prints"], oracles=["address-in-text"]),
+        EVAL(3000, 40000, kinds=["run", "pipeline"], projections=["prints"], oracles=["address-in-text"]),
         {"name": "valrel", "quick_n": 2000, "thorough_n": 30000, "oracles_only": True, "oracles": ["valrel-canonical"]},
     ],
     "explanation": "The model is a pure function of (source, environment): evaluation is determined (C06.determined), renderings and string() are invariant under any re-ordering of map entries at any depth (C13.texts_invariant, render_map_perm, stringify_map_perm, valEq_map_perm) and object rendering under field permutation (render_obj_perm); the only events are host calls and print lines. Tie: the history stream plays random Compile/invoke sequences on ONE engine with shared environment objects (structs, *types.Env/*val.Env, maps), each invoke twice, against fresh engines with fresh copies, with stdout captured and host values deep-compared; the prints projection of the eval stream.",
